@@ -68,3 +68,11 @@ Definition spec_new_ok (n d r : option (list Z)) : bool :=
       len_ok d && len_ok n && len_ok r &&
       match n with Some n => local_ok n | None => true end
   end.
+
+(* hypotheses of the property statements, in Prop form *)
+Definition chars_free (forb : list Z) (o : option (list Z)) : Prop :=
+  match o with Some s => forall c, In c s -> ~ In c forb | None => True end.
+Definition opt_len_le (o : option (list Z)) (m : Z) : Prop :=
+  match o with Some s => zlen s <= m | None => True end.
+Definition opt_len_gt (o : option (list Z)) (m : Z) : Prop :=
+  match o with Some s => zlen s > m | None => False end.
